@@ -43,6 +43,21 @@ pub fn replay_file() {
                     .collect();
                 crate::user::permission::UserRole::match_url_by_roles(&roles, p, c["method"].as_str().unwrap_or(""))
             }
+            "ns_privilege" => {
+                use crate::common::model::privilege::{NamespacePrivilegeGroup, PrivilegeGroup};
+                use std::collections::HashSet;
+                let set = |v: &serde_json::Value| -> Option<Arc<HashSet<Arc<String>>>> {
+                    v.as_array().map(|a| Arc::new(a.iter().map(|x| Arc::new(x.as_str().unwrap_or("").to_string())).collect()))
+                };
+                let g = NamespacePrivilegeGroup::new(PrivilegeGroup {
+                    enabled: true,
+                    whitelist_is_all: c["whitelist_is_all"].as_bool().unwrap_or(false),
+                    whitelist: set(&c["whitelist"]),
+                    blacklist_is_all: c["blacklist_is_all"].as_bool().unwrap_or(false),
+                    blacklist: set(&c["blacklist"]),
+                });
+                g.check_permission(&Arc::new(p.to_string()))
+            }
             _ => panic!("VERIF-REPLAY-UNKNOWN-HARNESS case kind {}", kind),
         };
         n += 1;
